@@ -61,6 +61,7 @@ type pathState struct {
 	steps    int64
 	nvars    int
 	unknowns int
+	known    map[int]bool // atoms (term ids) decided on this path
 	uf       map[string]*smt.Term // uninterpreted environment results on this path
 	usedUF   bool
 	syncMaps map[*value]*smap
@@ -87,6 +88,21 @@ func (i *interpreter) decide(cond *smt.Term, why string) bool {
 		return cond.C == 1
 	}
 	ps := i.ps
+	// an atom already decided on this path is not asked again
+	atom, pol := cond, true
+	if cond.Op == "not" {
+		atom, pol = cond.Args[0], false
+	}
+	if v, ok := ps.known[atom.ID]; ok {
+		return v == pol
+	}
+	defer func() {
+		if len(ps.trace) > 0 {
+			if ps.known == nil {
+				ps.known = map[int]bool{}
+			}
+		}
+	}()
 	if ps.pos < len(ps.prefix) {
 		d := ps.prefix[ps.pos]
 		ps.pos++
@@ -96,6 +112,7 @@ func (i *interpreter) decide(cond *smt.Term, why string) bool {
 		} else {
 			i.assertPC(smt.Not(cond))
 		}
+		i.learn(atom, (d == 1) == pol)
 		return d == 1
 	}
 	i.stats.Decisions++
@@ -128,7 +145,36 @@ func (i *interpreter) decide(cond *smt.Term, why string) bool {
 		ps.trace = append(ps.trace, 0)
 		i.assertPC(smt.Not(cond))
 	}
+	i.learn(atom, take == pol)
 	return take
+}
+
+// learn records the truth value of an atom on this path (and of the
+// conjuncts / disjuncts it determines).
+func (i *interpreter) learn(atom *smt.Term, val bool) {
+	ps := i.ps
+	if ps.known == nil {
+		ps.known = map[int]bool{}
+	}
+	ps.known[atom.ID] = val
+	switch {
+	case atom.Op == "and" && val:
+		for _, a := range atom.Args {
+			i.learnLit(a, true)
+		}
+	case atom.Op == "or" && !val:
+		for _, a := range atom.Args {
+			i.learnLit(a, false)
+		}
+	}
+}
+
+func (i *interpreter) learnLit(t *smt.Term, val bool) {
+	if t.Op == "not" {
+		i.learn(t.Args[0], !val)
+		return
+	}
+	i.learn(t, val)
 }
 
 // choose makes an n-way nondeterministic choice (all alternatives feasible).
